@@ -26,7 +26,15 @@ def judge(rec, variants):
     for style, plain in variants:
         for cfgname in g["cfgs"]:
             n += 1
-            oc, got, _ = mergeobs.run_merge(rec["l"], rec["r"], "/".join(cfgname.split("/")[:4]), style, plain)
+            base, _, extra = cfgname.partition("#")
+            kw = {}
+            if extra.startswith("rule:"):
+                k, m = extra[5:].split("=")
+                kw["rules"] = {"/" + k: m}
+            elif extra.startswith("key:"):
+                k, m = extra[4:].split("=")
+                kw["keys"] = {"/" + k: m}
+            oc, got, _ = mergeobs.run_merge(rec["l"], rec["r"], "/".join(base.split("/")[:4]), style, plain, **kw)
             problem = None
             if oc == "crash":
                 problem = ("crash", got)
@@ -61,8 +69,9 @@ def _strip(tab):
 def _dims(rec, cfgname):
     """Which policy dimensions can matter for this pair (for a stable, informative signature)."""
     kinds = {n["k"] for n in rec["r"]}
-    h, a, o, s = cfgname.split("/")[:4]
-    parts = []
+    base, _, extra = cfgname.partition("#")
+    h, a, o, s = base.split("/")[:4]
+    parts = [extra.split(":")[0]] if extra else []
     if "map" in kinds:
         parts.append("hashes=" + h)
     if "seq" in kinds:
@@ -80,7 +89,8 @@ def _work(items):
 def run(ctx):
     cfgs = ["MC_Merge_q.cfg"] if ctx.quick else ["MC_Merge_t.cfg", "MC_Merge_all.cfg"]
     recs = []
-    cfgs = [("MC_Merge", c) for c in cfgs] + [("MC_MergeAoH", "MC_MergeAoH_q.cfg" if ctx.quick else "MC_MergeAoH_t.cfg")]
+    cfgs = [("MC_Merge", c) for c in cfgs] + [("MC_MergeAoH", "MC_MergeAoH_q.cfg" if ctx.quick else "MC_MergeAoH_t.cfg"),
+                                                    ("MC_MergeRules", "MC_MergeRules_q.cfg")]
     for module, cfg in cfgs:
         f = ctx.path(cfg + ".cases")
         r = core.run_tlc(ctx, module, cfg, env={"CASES_OUT": f}, timeout=7200)
